@@ -74,6 +74,10 @@ def main():
                 break
         if "build this demo with -fsanitize=thread" in src and "-fsanitize=thread" not in extra:
             extra.append("-fsanitize=thread")
+        if re.search(r"#\s*error[^\n]*_GLIBCXX_DEBUG", src) or "_GLIBCXX_DEBUG" in meta["notes_from_author"].split("\n")[0]:
+            extra.append("-D_GLIBCXX_DEBUG")
+        if re.search(r"#\s*error[^\n]*fsanitize=address", src) and not any("address" in e for e in extra):
+            extra.append("-fsanitize=address,undefined")
         f1, o1 = demo_run(demo, os.path.join(d, "inc"), os.path.join(d, "demo_with"), extra)
         f0, o0 = demo_run(demo, "/repo/inc", os.path.join(d, "demo_without"), extra)
         meta["demo_fails_with_change"] = f1
